@@ -29,7 +29,7 @@ async def settle(turns=400):
         await asyncio.sleep(0)
 
 
-async def scenario(burst, hold_at, idlers, examine, end, b_selects=True, done_while_held=False, prelude=()):
+async def scenario(burst, hold_at, idlers, examine, end, b_selects=True, done_while_held=False, prelude=(), gap=()):
     """burst: tuple of change keys; hold_at: index in the burst before which the first idler's transport is blocked
     (None = never), released after the burst; end: b'DONE' or another line"""
     errors = []
@@ -53,6 +53,13 @@ async def scenario(burst, hold_at, idlers, examine, end, b_selects=True, done_wh
             for u in r['untagged']:
                 v.apply(u, 'prelude')
         ids.append((c, v))
+    for ch in gap:
+        # the mailbox changes between the idler's last command and its IDLE: nothing has told the client yet
+        for cmd in CHANGES[ch]:
+            if isinstance(cmd, tuple):
+                await b.cmd(cmd[0], cmd[1])
+            else:
+                await b.cmd(cmd)
     tags = []
     for c, v in ids:
         tag = c.new_tag()
@@ -63,6 +70,9 @@ async def scenario(burst, hold_at, idlers, examine, end, b_selects=True, done_wh
         got = c.take()
         if not any(x.startswith(b'+') for x in got):
             errors.append(f'{c.name}: IDLE was not answered with a continuation request: {got}')
+        for u in got:
+            if u.startswith(b'* '):
+                v.apply(u, f'{c.name} push at the start of IDLE')      # what the gap left behind arrives right away
     hold = asyncio.Event()
     race = hold_at if isinstance(hold_at, tuple) else None        # ('race', order, turns): DONE and a change close together
     if race is not None:
@@ -149,7 +159,7 @@ async def scenario(burst, hold_at, idlers, examine, end, b_selects=True, done_wh
                 errors.append(f'{c.name}: after IDLE + NOOP the client holds {held} messages but the server numbers {len(listed)} '
                               f'(a batch of updates was committed but never sent)')
     await w.close()
-    return errors, (tuple(burst), hold_at, idlers, examine, end)
+    return errors, (tuple(burst), hold_at, idlers, examine, end, tuple(gap))
 
 
 def _worker(args):
@@ -196,6 +206,14 @@ def bounded_idle(label):
             for order in ('done-first', 'change-first'):
                 for turns in range(0, 12):
                     items.append(((ch,), ('race', order, turns), 1, False, b'DONE', True, True))
+        # the mailbox changed in the gap before IDLE (the idler has not been told), then changes again during IDLE
+        for g in keys:
+            for ln in (0, 1, 2) if tier != 'quick' else (0, 1):
+                for burst in itertools.product(keys, repeat=ln):
+                    for examine in (False, True):
+                        items.append((burst, None, 1, examine, b'DONE', True, False, (), (g,)))
+                    if ln:
+                        items.append((burst, 0, 1, False, b'DONE', True, False, (), (g,)))
         # DONE arrives while the server is blocked writing an earlier notification and more changes are pending
         for ln in (1, 2):
             for burst in itertools.product(keys, repeat=ln):
@@ -211,7 +229,8 @@ def bounded_idle(label):
                                                      idlers=args[2], examine=args[3], end=args[4].decode(),
                                                      changer_has_inbox_selected=(args[5] if len(args) > 5 else True),
                                                      done_sent_while_held=(args[6] if len(args) > 6 else False),
-                                                     commands_before_idle=[x.decode() for x in (args[7] if len(args) > 7 else ())]),
+                                                     commands_before_idle=[x.decode() for x in (args[7] if len(args) > 7 else ())],
+                                                     changes_between_last_command_and_idle=list(args[8] if len(args) > 8 else ())),
                              errs[:3])
                 elif len(res.samples) < 2:
                     res.samples.append(dict(burst=list(args[0]), held_before=args[1], result='delivered'))
